@@ -21,6 +21,9 @@ pub mod c07;
 #[cfg(feature = "c09")]
 pub mod c09;
 
+#[cfg(feature = "c16")]
+pub mod c16;
+
 #[cfg(feature = "replay")]
 #[cfg(kani)]
 mod replay_active;
